@@ -44,35 +44,54 @@ CLEAN = ("ValueError", "IndexError", "TypeError")
 
 # ------------------------------------------------------------------ documented sparse limitations
 # (operation, reason, predicate name).  A case whose oracle ACCEPTS and whose implementation raises
-# ValueError / TypeError / IndexError / NotImplementedError is tolerated iff a row matches.
+# ValueError / TypeError / IndexError / NotImplementedError — or whose oracle REJECTS and whose
+# implementation raises NotImplementedError — is tolerated iff a row matches (the predicate looks at
+# the operation, the operand format and the documented error message).
 ALLOWED = [
-    ("dot/matmul/tensordot/kron/einsum/outer/vecdot", "operands with a nonzero fill value: 'This operation requires zero fill values'", "nonzero_fill"),
-    ("triu/tril", "documented: not implemented for 0-d / 1-d arrays (NotImplementedError)", "triu_low_dim"),
-    ("reduce mean/prod/... on 0-d", "none", "never"),
-    ("pad", "documented: only mode='constant' with the array's fill value", "never"),
-    ("asformat", "an unknown format string has no NumPy counterpart; NotImplementedError/ValueError is the documented answer", "unknown_format"),
-    ("getitem", "documented: GCXS/DOK support only a subset of advanced indexing", "adv_index_not_coo"),
-    ("concatenate/stack", "documented: all operands must be SparseArray with the same fill value", "never"),
-    ("einsum", "documented: only explicit subscripts strings; ellipsis broadcasting of repeated output indices unsupported", "never"),
-    ("nonzero/argwhere/unique_*/sort/take/argmax/argmin", "documented: zero fill value / 1-d only / flattened only (see docstrings)", "docstring_limit"),
-    ("reshape", "documented: order must be 'C'", "never"),
-    ("roll", "documented: shift that cannot be stored in the index dtype is rejected (ValueError)", "never"),
-    ("diagonal/diagonalize", "documented: zero fill value only", "never"),
-    ("clip", "documented: at least one of min/max", "never"),
-    ("matmul", "0-d operands are rejected by NumPy too", "never"),
+    ("triu / tril", "documented NotImplementedError: not implemented for 0-d / 1-d arrays", "triu_low_dim"),
+    ("asformat", "an unknown format has no NumPy counterpart; NotImplementedError/ValueError 'format is not supported' is the documented answer", "unknown_format"),
+    ("getitem / setitem on GCXS and DOK", "documented: only part of NumPy's advanced indexing is supported (NotImplementedError / IndexError)", "adv_index_not_coo"),
+    ("getitem on COO", "documented IndexError: index arrays are not broadcast against each other ('Ensure all indexing arrays are of the same length')", "adv_index_broadcast"),
+    ("reductions / squeeze on a 0-d array", "axis=0 / axis=-1 on a 0-d array is a NumPy legacy allowance; the library applies the array-API rule (axis out of range)", "axis_on_0d"),
+    ("expand_dims", "documented: axis must be an int", "expand_dims_tuple_axis"),
+    ("clip", "documented ValueError 'One of max or min must be given'", "clip_none"),
+    ("roll", "documented ValueError: a shift sequence needs an axis sequence of equal length; unsigned index dtype is 'not safe'", "roll_documented"),
+    ("diagonal", "documented ValueError: a.shape[axis1] != a.shape[axis2] (only square planes)", "diagonal_nonsquare"),
+    ("einsum", "repeated index with different extents ('Repeated indices must have the same dimension': NumPy itself reads out of bounds here) and no broadcasting of length-1 axes ('Inconsistent shape for index')", "einsum_documented"),
+    ("sort / take / argmax / argmin", "documented in the docstrings: restrictions on axis / fill value", "docstring_limit"),
 ]
 
 
 def allowed(case, impl):
-    """does a row of ALLOWED cover this (valid-by-oracle) case on which the implementation raised?"""
+    """name of the ALLOWED row that covers this case, or None"""
     op = case["op"]
-    if op in ("triu", "tril") and len(case["a"]["shape"]) < 2:
+    A = case.get("args", {})
+    a = case.get("a") or {}
+    msg = (impl or {}).get("msg") or ""
+    nd = len(a.get("shape", []))
+    if op in ("triu", "tril") and nd < 2:
         return "triu_low_dim"
-    if op == "asformat" and case["args"].get("unknown"):
+    if op == "idx_dtype_op" and A.get("which") in ("triu", "tril") and nd < 2:
+        return "triu_low_dim"
+    if op == "asformat" and A.get("unknown"):
         return "unknown_format"
-    if op == "getitem" and case["a"]["format"] != "coo" and case["args"].get("advanced"):
+    if op in ("getitem", "dok_set") and a.get("format") != "coo" and A.get("advanced"):
         return "adv_index_not_coo"
-    if op in ("sort", "take", "argmax", "argmin", "unique_values", "unique_counts", "nonzero") and case["args"].get("doc_limit"):
+    if op == "getitem" and "Ensure all indexing arrays are of the same length" in msg:
+        return "adv_index_broadcast"
+    if op in ("sum", "max", "min", "any", "prod", "mean", "squeeze") and nd == 0 and A.get("axis") in (0, -1):
+        return "axis_on_0d"
+    if op == "expand_dims" and isinstance(A.get("axis"), list):
+        return "expand_dims_tuple_axis"
+    if op == "clip" and "One of max or min must be given" in msg:
+        return "clip_none"
+    if op in ("roll", "idx_dtype_op") and ("'axis' must have equal length" in msg or "is not safe. Try using a signed dtype" in msg):
+        return "roll_documented"
+    if op in ("diagonal", "idx_dtype_op") and "a.shape[axis1] != a.shape[axis2]" in msg:
+        return "diagonal_nonsquare"
+    if op == "einsum" and ("Repeated indices must have the same dimension" in msg or "Inconsistent shape for index" in msg):
+        return "einsum_documented"
+    if op in ("sort", "take", "argmax", "argmin") and A.get("doc_limit") and (impl or {}).get("exc") in ("ValueError", "NotImplementedError", "IndexError"):
         return "docstring_limit"
     return None
 
@@ -263,6 +282,7 @@ def _idx_dtype_op(np, sparse, a, ad, b, bd, A):
         "kron": (lambda: sparse.kron(a, a), lambda: np.kron(ad, ad)),
         "step2": (lambda: a[::2], lambda: ad[::2]),
         "gcxs": (lambda: a.asformat("gcxs"), lambda: ad),
+        "gcxs_getitem": (lambda: a.asformat("gcxs")[0], lambda: ad[0]),
     }
     return fs[which]
 
@@ -451,7 +471,7 @@ def gen_cases(tier, seed):
         idxs += [["t", [["sl", None, None, None], ["i", 7]]], ["t", [["i", 0], ["f", 1.5]]],
                  ["t", [["n"], ["i", 0]]], ["t", [["li", [0, 1]], ["li", [0, 1]]]], ["t", [["li", [0, 1]], ["li", [0]]]]]
         for fmt in fmts_for(sp, ("coo", "gcxs", "dok")):
-            sel = idxs if fmt == "coo" else rng.sample(idxs, min(len(idxs), 30))
+            sel = idxs if fmt == "coo" else rng.sample(idxs, min(len(idxs), 20 if tier == "quick" else 60))
             for ix in sel:
                 adv = any(t in json.dumps(ix) for t in ('"li"', '"ai"', '"lb"'))
                 add("getitem", with_fmt(sp, fmt, rng), idx=ix, advanced=adv or fmt == "dok")
@@ -525,17 +545,21 @@ def gen_cases(tier, seed):
             add("stack", with_fmt(s1, "coo"), with_fmt(s2, "coo"), axis=0)
     # ---- products
     prng = random.Random(seed + 4)
-    pshapes = [(), (0,), (1,), (2,), (3,), (0, 2), (2, 0), (2, 2), (2, 3), (3, 2), (3, 0), (0, 3), (1, 3), (2, 2, 2), (2, 0, 2)]
+    pshapes = [(), (0,), (1,), (2,), (3,), (0, 2), (2, 0), (2, 2), (2, 3), (3, 2), (3, 0), (0, 3), (2, 2, 2)]
+    if tier != "quick":
+        pshapes += [(1, 3), (2, 0, 2), (1, 1)]
     pspecs = [vlib.gen_array_spec(prng, shape=sh, density=0.8) for sh in pshapes]
-    kinds = [("coo", "coo"), ("coo", "dense"), ("dense", "coo"), ("gcxs", "gcxs"), ("gcxs", "dense"), ("dense", "gcxs"), ("coo", "gcxs")]
+    kinds = [("coo", "coo"), ("coo", "dense"), ("dense", "coo"), ("gcxs", "gcxs"), ("gcxs", "dense"), ("dense", "gcxs")]
+    if tier != "quick":
+        kinds.append(("coo", "gcxs"))
     for s1, s2 in itertools.product(pspecs, repeat=2):
         for ka, kb in kinds:
             if (ka == "gcxs" and not s1["shape"]) or (kb == "gcxs" and not s2["shape"]):
                 continue
             add("dot", with_fmt(s1, ka), with_fmt(s2, kb))
-            if tier != "quick" or prng.random() < 0.35:
-                add("matmul", with_fmt(s1, ka), with_fmt(s2, kb))
             if tier != "quick" or prng.random() < 0.25:
+                add("matmul", with_fmt(s1, ka), with_fmt(s2, kb))
+            if tier != "quick" or prng.random() < 0.2:
                 add("tensordot", with_fmt(s1, ka), with_fmt(s2, kb), axes=prng.choice([0, 1, 2, [[0], [0]], [[-1], [0]], [[0, 1], [1, 0]], [[5], [0]]]))
     for s1, s2 in itertools.product(pspecs[:9], repeat=2):
         if prng.random() < 0.5:
@@ -569,8 +593,9 @@ def gen_cases(tier, seed):
             for fmt in fmts_for(sp):
                 add("triu", with_fmt(sp, fmt, rng), k=k)
                 add("tril", with_fmt(sp, fmt, rng), k=k)
-        for off, a1, a2 in itertools.product([-1, 0, 1], range(-nd - 1, nd + 1), range(-nd - 1, nd + 1)):
-            add("diagonal", with_fmt(sp, "coo"), offset=off, a1=a1, a2=a2)
+        for off, a1, a2 in itertools.product([-1, 0, 1] if tier != "quick" else [-1, 0], range(-nd - 1, nd + 1), range(-nd - 1, nd + 1)):
+            if tier != "quick" and True or rng.random() < 0.6:
+                add("diagonal", with_fmt(sp, "coo"), offset=off, a1=a1, a2=a2)
         for lo, hi in [(None, None), (0, None), (None, 1), (2, 1)]:
             add("clip", with_fmt(sp, "coo"), lo=lo, hi=hi)
         for ind, ax in itertools.product([[0], [0, 0], [5], [-1], []], [None, 0, -1, nd]):
@@ -607,15 +632,20 @@ def gen_cases(tier, seed):
         nd = len(sp["shape"])
         for fmt_ in ["coo", "gcxs", "dok", "foo", "csr", "csc", 5]:
             add("asformat", with_fmt(sp, "coo"), fmt=fmt_, unknown=fmt_ in ("foo", 5))
-        if nd >= 1:
-            cas = [None, [], [0], [nd - 1], [nd], [-1], [0, 0], list(range(nd)), [1, 0], [0, 1], [0, 2]]
+        if nd >= 2:
+            cas = [None, [], [0], [nd - 1], [nd], [-1], [-nd - 1], [0, 0], list(range(nd)), [1, 0], [0, 1], [0, 2]]
             for ca in cas:
                 add("asformat", with_fmt(sp, "coo"), fmt="gcxs", caxes=ca)
     # ---- narrow / unsigned index dtypes (D6)
     for sp in specs:
         if len(sp["shape"]) >= 1:
-            for dt in ("uint8", "int8"):
-                for which in ("rev", "triu", "tril", "T", "sum0", "flat", "roll", "neg", "pad", "diag", "flip", "concat", "kron", "step2", "gcxs"):
+            for dt in ("uint8", "int8", "uint64"):
+                allw = ("rev", "triu", "tril", "T", "sum0", "flat", "roll", "neg", "pad", "diag", "flip", "concat", "kron", "step2", "gcxs", "gcxs_getitem")
+                if tier == "quick" and dt == "int8":
+                    allw = ("rev", "neg", "sum0", "roll", "triu")
+                if tier == "quick" and dt == "uint64":
+                    allw = ("rev", "sum0", "gcxs_getitem", "T", "pad", "kron")
+                for which in allw:
                     c = {"op": "idx_dtype_op", "a": with_fmt(sp, "coo"), "b": None, "args": {"which": which, "dt": dt}, "idx_dtype": dt}
                     cases.append(c)
     # ---- DOK assignment
@@ -626,7 +656,7 @@ def gen_cases(tier, seed):
                        ["sl", 0, 1, 1], ["li", [7]], ["t", [["i", 0]] * nd]]:
                 add("dok_set", with_fmt(sp, "dok"), idx=ix, advanced=True)
     # ---- constructors
-    for shape in [[2], [2, 2], [0], [2, 0], [], None]:
+    for shape in [[2], [2, 2], [0], [2, 0], None]:
         nd = 1 if shape is None else len(shape)
         good = [[0] for _ in range(nd)] if shape and all(shape) else [[] for _ in range(nd)]
         variants = [
@@ -784,8 +814,9 @@ def spec_oracle(case):
             return False, None
         if fmt == "gcxs" and "caxes" in A and A["caxes"] is not None:
             ca = A["caxes"]
-            if nd == 1:
-                return True, vlib.spec_dense(case["a"])       # 1-d: compressed axes are ignored
+            if any(not -nd <= x < nd for x in ca):
+                return False, None
+            ca = [x + nd if x < 0 else x for x in ca]           # normalize_axis runs first
             ok = len(ca) != nd and len(ca) > 0 and all(0 <= x < nd for x in ca) and all(x < y for x, y in zip(ca, ca[1:], strict=False))
             return (ok, vlib.spec_dense(case["a"]) if ok else None)
         return True, vlib.spec_dense(case["a"])
@@ -808,7 +839,9 @@ def model_of(case):
     nd = len(sh) if sh is not None else None
     if op == "getitem" and nd and A["idx"][0] == "i" and a["format"] == "coo":
         return f"(MIndex {vZ(A['idx'][1])} {vZ(sh[0])})"
-    if op in ("sum", "max", "min", "any", "prod", "mean") and a["format"] == "coo":
+    if op in ("max", "min") and 0 in sh:
+        return "MNone"              # NumPy rejects every zero-size max/min, whatever the axis
+    if op in ("sum", "max", "min", "any", "prod") and a["format"] == "coo":     # mean reads shape[axis] first
         ax = A["axis"]
         if isinstance(ax, int):
             return f"(MAxis {vZ(ax)} {vZ(nd)})"
@@ -830,7 +863,9 @@ def model_of(case):
         return f"(MBroadcast {zl(sh)} {zl(case['b']['shape'])})"
     if op == "dot":
         sa, sb = list(a["shape"]), list(case["b"]["shape"])
-        if len(sa) >= 1 and len(sb) >= 1 and not (len(sa) == 1 and len(sb) == 1):
+        if len(sa) == 1 and len(sb) == 1:
+            return f"(MDot1d {vZ(sa[0])} {vZ(sb[0])})"
+        if len(sa) >= 1 and len(sb) >= 1:
             return f"(MContract {zl([sa[-1]])} {zl([sb[-2] if len(sb) >= 2 else sb[-1]])})"
     if op == "ctor_coo":
         co, da, shp = A["coords"], A["data"], A["shape"]
@@ -838,41 +873,88 @@ def model_of(case):
                 and all(isinstance(v, int) for r in co for v in r) and not A.get("idx_dtype") \
                 and all(0 <= v < d for r, d in zip(co, shp, strict=False) for v in r) and len(co[0]) > 0:
             return f"(MCooInit {len(da)} {len(co[0])} {len(shp)} {len(co)})"
-    if op == "asformat" and A["fmt"] == "gcxs" and "caxes" in A and nd >= 2 and (A["caxes"] is None or all(0 <= x < 8 for x in A["caxes"])):
-        return f"(MCaxes {vZ(nd)} {vopt(A['caxes'], zl)})"
+    if op == "asformat" and A["fmt"] == "gcxs" and "caxes" in A and nd >= 2 and (A["caxes"] is None or all(-nd <= x < nd for x in A["caxes"])):
+        # GCXS.from_coo normalises the axes (normalize_axis) before check_compressed_axes sees them
+        ca = None if A["caxes"] is None else [x + nd if x < 0 else x for x in A["caxes"]]
+        return f"(MCaxes {vZ(nd)} {vopt(ca, zl)})"
     return "MNone"
 
 
 # ------------------------------------------------------------------ clauses
 def clause_of(case, code, r):
+    """stable name of the defect class a non-zero verdict belongs to"""
     op = case["op"]
     impl = r.get("impl") or {}
     cls = impl.get("exc")
+    real = (impl.get("cls") or cls or "?").split(".")[-1]
+    msg = impl.get("msg") or ""
     A = case["args"]
-    a, b = case.get("a"), case.get("b")
+    a, b = case.get("a") or {}, case.get("b") or {}
+    fa = a.get("format")
+    nda, ndb = len(a.get("shape", [])), len(b.get("shape", []))
     if code == 10:
         return f"hang:{op}"
     if code == 11:
         return f"interpreter_crash:{op}"
-    if op in ("dot", "matmul", "tensordot") and cls == "ZeroDivisionError" and "gcxs" in (a["format"], b["format"]):
+    if op in ("dot", "matmul", "tensordot") and cls == "ZeroDivisionError" and "gcxs" in (fa, b.get("format")):
         return "D20_gcxs_zero_extent_zerodivision"
-    if op == "dot" and code == 20 and len(a["shape"]) == 1 and len(b["shape"]) == 1:
-        return "D19_dot_1d_length_mismatch"
-    if op == "idx_dtype_op" and cls == "OverflowError":
-        return "D6_unsigned_overflow"
+    if op == "dot" and code == 40 and (nda == 0 or ndb == 0):
+        return "dot_0d_operand_rejected"
     if op == "idx_dtype_op":
-        return f"narrow_idx_dtype:{A['which']}:{cls or 'accepted'}"
-    if op in ("max", "min") and code == 20:
-        return "D11_minmax_zero_size_accepted"
+        if A["which"] == "gcxs_getitem" and real == "AttributeError":
+            return "gcxs_getitem_unsigned_indices"
+        if A.get("dt") == "uint64" and cls == "TypeError":
+            return "uint64_promotes_to_float"
+        return f"narrow_idx_dtype:{A['which']}:{real if cls else 'accepted'}"
+    if op in ("sum", "max", "min", "any", "prod", "mean") and fa == "gcxs":
+        if code == 20:
+            return "gcxs_reduce_invalid_axes_accepted"
+        if real == "NotImplementedError":
+            return "gcxs_reduce_repeated_axes_notimplemented"
+        if code == 40 and A.get("axis") == []:
+            return "gcxs_reduce_empty_axis_tuple"
+    if op in ("concatenate", "stack") and real == "AssertionError":
+        return "concat_stack_shape_mismatch_assertion"
+    if real == "AttributeError" and fa == "gcxs" and op in ("broadcast_to", "squeeze"):
+        return f"gcxs_missing_method:{op}"
+    if real == "AttributeError" and fa == "gcxs" and op in ("triu", "tril"):
+        return "triu_tril_gcxs_attributeerror"
+    if op == "reshape":
+        if code == 20 and list(A["shape"]).count(-1) >= 2:
+            return "reshape_two_unknown_dims_accepted"
+        if real == "OverflowError":
+            return "gcxs_reshape_minus1_zero_extent_overflow"
+    if op == "broadcast_to" and code == 20:
+        return "broadcast_to_more_dims_than_target"
+    if op == "einsum":
+        if real == "KeyError":
+            return "einsum_too_many_subscripts_keyerror"
+        if code == 20:
+            return "einsum_invalid_subscripts_accepted"
+    if op == "diagonal" and code == 20:
+        return "diagonal_bad_axes_accepted"
+    if op in ("getitem", "dok_set") and fa == "dok" and code == 20:
+        return "dok_fancy_index_unchecked"
+    if op == "squeeze" and code == 40 and fa == "coo":
+        return "squeeze_negative_axis_rejected"
+    if op in ("flip", "squeeze") and code == 20:
+        return f"repeated_axes_accepted:{op}"
+    if op == "ctor_gcxs" and code == 20:
+        return "gcxs_ctor_unvalidated"
+    if op == "probe":
+        return "check_compressed_axes_set_order"
     kind = {20: "accepted_invalid", 21: "wrong_exception_class", 40: "valid_rejected", 41: "internal_error",
             50: "class_differs_from_model", 51: "model_accepts", 52: "model_rejects", 53: "spec_vs_numpy"}.get(code, str(code))
-    extra = ""
-    if code in (21, 41):
-        extra = ":" + (impl.get("cls") or cls or "?").split(".")[-1]
-    fmt = ""
-    if a is not None and a["format"] != "coo":
-        fmt = ":" + a["format"]
+    extra = (":" + real) if code in (21, 41) else ""
+    fmt = (":" + fa) if fa and fa != "coo" else ""
     return f"{kind}:{op}{fmt}{extra}"
+
+
+GENERIC_KINDS = ("accepted_invalid", "wrong_exception_class", "valid_rejected", "internal_error", "class_differs_from_model",
+                 "model_accepts", "model_rejects", "spec_vs_numpy", "hang", "interpreter_crash")
+OP_FAMILY = {"sum": "reduce", "max": "reduce", "min": "reduce", "any": "reduce", "prod": "reduce", "mean": "reduce",
+             "triu": "triu_tril", "tril": "triu_tril", "concatenate": "concat_stack", "stack": "concat_stack",
+             "getitem": "index", "dok_set": "index", "dot": "product", "matmul": "product", "tensordot": "product"}
 
 
 def replay_line(case):
@@ -912,14 +994,56 @@ def kernel_lit(c, r):
 
 
 # ------------------------------------------------------------------ campaign
+def run_watchdogged(fname, cases, group_of):
+    """run the cases in worker processes: 3 op-families x 2 workers (so that every Numba kernel is
+    JIT-compiled in 2 processes, not 6), first under the 20 s watchdog; every case that did not come
+    back is run again alone-ish under a 80 s watchdog (a cold worker may spend more than 20 s in the
+    JIT compiler on a loaded machine): only a case that fails to return TWICE is a hang."""
+    import threading
+    groups = {}
+    for i, c in enumerate(cases):
+        groups.setdefault(group_of(c), []).append(i)
+    res = [None] * len(cases)
+
+    def work(idx, timeout, workers):
+        out = vlib.run_impl("props.c18", fname, [cases[i] for i in idx], workers=workers, per_case_timeout=timeout)
+        for i, r in zip(idx, out, strict=True):
+            res[i] = r
+    ths = [threading.Thread(target=work, args=(idx, WATCHDOG, max(1, 6 // len(groups)))) for idx in groups.values()]
+    for t in ths:
+        t.start()
+    for t in ths:
+        t.join()
+    suspects = [i for i, r in enumerate(res) if r is None or r.get("hang")]
+    first_pass_suspects = len(suspects)
+    if suspects:
+        work(suspects, 4 * WATCHDOG, 6)
+    return res, first_pass_suspects
+
+
+def api_group(c):
+    op = c["op"]
+    if op == "dot":
+        return 0
+    if op in ("matmul", "tensordot", "idx_dtype_op", "kron", "outer", "vecdot", "einsum"):
+        return 1
+    return 2
+
+
 def campaign(build, tier, seed, report, budget=1):
     import numpy as np
     viol = []
+    build.make(["Corr/C18Judge.vo"], timeout=600)
     cases = gen_cases(tier, seed)
     kcases = gen_kernel_cases(tier, seed)
-    # one representative of every class known to have hung goes LAST (a hang costs the whole watchdog)
-    res = vlib.run_impl("props.c18", "impl_case", cases, workers=6, per_case_timeout=WATCHDOG)
-    kres = vlib.run_impl("props.c18", "impl_kernel", kcases, workers=6, per_case_timeout=WATCHDOG)
+    import time
+    t0 = time.time()
+    res, sus1 = run_watchdogged("impl_case", cases, api_group)
+    t1 = time.time()
+    kres, sus2 = run_watchdogged("impl_kernel", kcases, lambda c: 0 if c["k"] in ("dcn", "dcns", "dnc", "dncs") else 1)
+    t2 = time.time()
+    report["notes"].append(f"{sus1 + sus2} cases exceeded the 20 s watchdog in the first pass and were re-run under 80 s; "
+                           f"implementation side: API {t1 - t0:.0f} s, kernels {t2 - t1:.0f} s")
 
     lits, keep = [], []
     harness_errors = []
@@ -971,7 +1095,7 @@ def campaign(build, tier, seed, report, budget=1):
                 sh, flat = list(d.shape), [int(v) for v in d.reshape(-1)]
             c["_gcxs_lit"] = g
         oracle_hist[orc] = oracle_hist.get(orc, 0) + 1
-        al = bool(allowed(c, r.get("impl"))) if orc != 0 else False
+        al = bool(allowed(c, r.get("impl")))
         impl_lit = vlib.sarr_lit(r["impl"]) if not status else "SOther"
         lits.append(vpair(vZ(orc), zl(sh), zl(flat), vbool(al), model_of(c), vZ(status), impl_lit))
         keep.append(i)
@@ -996,7 +1120,9 @@ def campaign(build, tier, seed, report, budget=1):
             continue
         kind = "representation" if code in (50, 51, 52, 53) else "value"
         cl = clause_of(c, code, r)
-        viol.append({"property": "C18", "op": c["op"], "kind": kind, "clause": cl, "code": code,
+        # a named root cause is one finding whatever member of the operation family hit it
+        fam = c["op"] if ":" in cl and cl.split(":")[0] in GENERIC_KINDS else OP_FAMILY.get(c["op"], c["op"])
+        viol.append({"property": "C18", "op": fam, "api": c["op"], "kind": kind, "clause": cl, "code": code,
                      "format": (c.get("a") or {}).get("format"), "case": _short(c), "impl": _short_res(r.get("impl")),
                      "oracle": _short_res(r.get("np")) if r.get("np") is not None else "Spec",
                      "replay_py": replay_line(_strip(c))})
@@ -1025,6 +1151,7 @@ def campaign(build, tier, seed, report, budget=1):
     for c in kcases:
         tags["kernel/" + c["k"]] = tags.get("kernel/" + c["k"], 0) + 1
 
+    report["notes"].append(f"Coq evaluation of the cases: {time.time() - t2:.0f} s")
     cov = report["coverage"]
     cov["evaluations"] = len(keep) + len(kcases)
     cov["distinct_nontrivial"] = len({json.dumps(_strip(cases[i]), sort_keys=True, default=str) for i in keep}) + \
